@@ -10,7 +10,7 @@ EXTENDS KV
 
 RECURSIVE SeqsUpTo(_)
 SeqsUpTo(n) == IF n = 0 THEN {<<>>}
-               ELSE LET S == SeqsUpTo(n - 1) IN S \cup {Append(s, x) : s \in S, x \in 1..3}
+               ELSE LET S == SeqsUpTo(n - 1) IN S \cup {Append(s, x) : s \in S, x \in 1..4}
 TraceKeys == SeqsUpTo(3) \ {<<>>}
 TraceVals == 0..5
 TraceBatches == {1, 2}
